@@ -627,6 +627,12 @@ fn check_across_processes(code: &[u8], acc: &mut Acc) -> CaseResult {
     }
     acc.label("fresh-processes");
     if outs.len() > 1 {
+        // look for the root cause the way a replay does (more orders, no exclusion): the diagnosis runs in
+        // one hash order and can miss a class that only forms in another
+        let more: Vec<u64> = (0..28u64).map(|i| i.wrapping_mul(0x9e37_79b9_7f4a_7c15) ^ 0xabcd).collect();
+        if let CaseResult::Fail(v) = check_code(code, true, &more, 8, true, acc) {
+            return CaseResult::Fail(v);
+        }
         return CaseResult::Fail(Violation::new(
             "the layout differs between fresh processes",
             format!("{outs:?}"),
